@@ -377,3 +377,8 @@ pub fn err_json(e: &Error) -> Value {
         Error::MissingIndexFile => json!({"err": "missing_index", "code": 0}),
     }
 }
+
+/// `Shape` is not `Clone`; its concrete payloads are
+pub fn clone_shape(s: &Shape) -> Shape {
+    with_inner!(s, x => Shape::from(x.clone()), Shape::NullShape)
+}
